@@ -116,6 +116,133 @@ func runC12(r *Run) {
 	if r.Want("seq") {
 		c12Sequences(r)
 	}
+	if r.Want("oneshot") {
+		c12OneShotHandlers(r)
+	}
+}
+
+// c12OneShotHandlers: stream handlers that read exactly one message and return — what every generated
+// server-streaming handler does — while the peer sends more than expected. The registry then changes
+// concurrently with the read loop, so there is no exact prediction; the property's own monitor decides:
+// the process survives, the server keeps reading, the probe is answered.
+func c12OneShotHandlers(r *Run) {
+	rng := r.Rand("c12.oneshot")
+	alpha := c12Alphabet()
+	n := r.Scale(60, 3000)
+	for i := 0; i < n; i++ {
+		l := 3 + rng.Intn(8)
+		seq := make([]seqEnv, 0, l+1)
+		open := alpha[11]
+		open.ID = uint64(1 + rng.Intn(2))
+		seq = append(seq, open)
+		for j := 0; j < l; j++ {
+			e := alpha[11+rng.Intn(9)]
+			e.ID = open.ID
+			if rng.Intn(4) == 0 {
+				e = alpha[rng.Intn(len(alpha))]
+			}
+			seq = append(seq, e)
+		}
+		if !c12OneShot(r, seq, i%3) || r.NumViolations() > 4 {
+			return
+		}
+	}
+}
+
+func c12OneShot(r *Run, seq []seqEnv, mode int) bool {
+	parts := make([]string, len(seq))
+	for i, e := range seq {
+		parts[i] = e.input()
+	}
+	input := fmt.Sprintf("oneshot mode=%d %s", mode, strings.Join(parts, ";"))
+	r.Progress("oneshot", input)
+	sc := NewScript(0)
+	sc.Out = make(chan *Rpc, 4096)
+	srv := goat.NewServer("srv")
+	impl := &Impl{}
+	impl.SetUnary(func(ctx context.Context, req []byte) ([]byte, error) { return req, nil })
+	gate := make(chan struct{})
+	impl.SetStream(func(method string, ss grpc.ServerStream) error {
+		recvB(ss) // exactly one message
+		if mode == 2 {
+			select { // return only once the read loop is parked on this stream (forced order)
+			case <-gate:
+			case <-ss.Context().Done():
+			}
+		}
+		if mode >= 1 {
+			sendB(ss, []byte("reply"))
+		}
+		return nil
+	})
+	srv.RegisterService(&echoDesc, impl)
+	hooks.Reset(true)
+	ctx, cancel := context.WithCancel(context.Background())
+	served := make(chan error, 1)
+	go func() { served <- srv.Serve(ctx, sc) }()
+	defer func() {
+		cancel()
+		srv.Stop()
+		if !within(hangTimeout, func() { <-served }) {
+			r.Violate("oneshot.serve", "ops", "Serve did not return after its context was cancelled", input, goroutineDump(), nil)
+		}
+		hooks.Reset(false)
+	}()
+	released := false
+	release := func() {
+		if !released {
+			released = true
+			close(gate)
+		}
+	}
+	defer release()
+	if mode == 2 {
+		// as soon as the read loop is parked in the forwarding select, let the handler return
+		// the handler takes the first message, the second fills its one-slot queue, the third parks the
+		// read loop in the forwarding select (holding the registry lock): only then may the handler return
+		go func() {
+			hooks.WaitFor(func(e Event) bool {
+				n := 0
+				for _, x := range hooks.eventsUnlocked() {
+					if x.Site == "srv.forward.enter" && x.ID == seq[0].ID {
+						n++
+					}
+				}
+				return n >= 3
+			}, hangTimeout)
+			release()
+		}()
+	}
+	for k, e := range seq {
+		select {
+		case sc.In <- e.rpc():
+		case <-time.After(hangTimeout):
+			r.Violate("oneshot.stall", "ops", "server stopped reading its transport", input, fmt.Sprintf("envelope %d not accepted", k), goroutineDump())
+			return false
+		}
+	}
+	pb, _ := goat_marshal(&wrapperspb.BytesValue{Value: []byte("probe")})
+	probe := &Rpc{Id: 99, Header: &goatorepo.RequestHeader{Method: mUnary, Destination: "srv", Source: "c"}, Body: &goatorepo.Body{Data: pb}}
+	select {
+	case sc.In <- probe:
+	case <-time.After(hangTimeout):
+		r.Violate("oneshot.stall", "ops", "server stopped reading its transport before the probe", input, nil, goroutineDump())
+		return false
+	}
+	deadline := time.After(hangTimeout)
+	for {
+		select {
+		case o := <-sc.Out:
+			if o.Id == 99 && o.Trailer != nil {
+				r.Eval("oneshot/"+input, true)
+				r.Count(fmt.Sprintf("oneshot.mode%d", mode))
+				return true
+			}
+		case <-deadline:
+			r.Violate("oneshot.probe", "ops", "a valid request after the sequence was not answered", input, nil, goroutineDump())
+			return false
+		}
+	}
 }
 
 func c12Method(r *Run) {
